@@ -119,6 +119,9 @@ def gen_case(rng, tier, flavour=None):
         ops.append(o)
         strs[ns] = {"open": True, "paused": False, "keys": list(o["keys"])}
 
+    def any_paused_now():
+        return any(d["paused"] for d in strs.values() if d["open"])
+
     open_writer()
     if rng.random() < 0.6:
         open_writer()
@@ -130,6 +133,11 @@ def gen_case(rng, tier, flavour=None):
         any_paused = any(d["paused"] for d in strs.values() if d["open"])
         x = rng.random()
         bg_live = [w for w in bg_active if writers[w]["open"]]
+        if not closed and not any(o["op"] == "sync" for o in ops[-9:]) and len(ops) >= 9 and not any_paused_now():
+            # bound the window in which hidden relay / streamer steps can be pending (the checker
+            # explores every interleaving of them)
+            ops.append({"op": "sync"})
+            continue
         if closed:
             # after DB.Close: writers keep writing (nothing is delivered any more), plus a few
             # other operations that must fail or be no-ops
@@ -176,6 +184,8 @@ def gen_case(rng, tier, flavour=None):
                         if others:
                             ks = ks + [rng.choice(others)]
                     kss.append(ks)
+                if ops and ops[-1]["op"] != "sync":
+                    ops.append({"op": "sync"})      # background writes start from a quiescent relay
                 ops.append({"op": "bg_writes", "w": w, "kss": kss})
                 bg_active.add(w)
                 bg_budget = rng.randrange(1, 5)
